@@ -471,7 +471,7 @@ pub fn process<I: BufRead, O: Write>(
             let substr = uncommented_buf.trim();
             // Before substitution, test the #ifdef
             if substr.starts_with("#ifdef") {
-                let mut parts = substr.split("//").next().unwrap().splitn(2, ' ');
+                let mut parts = substr.split("//").next().unwrap().splitn(2, char::is_whitespace);
                 parts.next().unwrap();
                 let maybe_expr = parts.next().map(|s| s.trim()).and_then(|s| {
                     if s.is_empty() {
@@ -500,7 +500,7 @@ pub fn process<I: BufRead, O: Write>(
                     state = State::Skip;
                 }
             } else if substr.starts_with("#ifndef") {
-                let mut parts = substr.split("//").next().unwrap().splitn(2, ' ');
+                let mut parts = substr.split("//").next().unwrap().splitn(2, char::is_whitespace);
                 parts.next().unwrap();
                 let maybe_expr = parts.next().map(|s| s.trim()).and_then(|s| {
                     if s.is_empty() {
@@ -530,7 +530,7 @@ pub fn process<I: BufRead, O: Write>(
                 }
             } else if substr.starts_with("#undef") {
                 if state == State::Active {
-                    let mut parts = substr.split("//").next().unwrap().splitn(2, ' ');
+                    let mut parts = substr.split("//").next().unwrap().splitn(2, char::is_whitespace);
                     parts.next().unwrap();
                     let maybe_expr = parts.next().map(|s| s.trim()).and_then(|s| {
                         if s.is_empty() {
@@ -557,7 +557,7 @@ pub fn process<I: BufRead, O: Write>(
                 }
             } else if substr.starts_with("#define") {
                 if state == State::Active {
-                    let mut parts = substr.split("//").next().unwrap().splitn(2, ' ');
+                    let mut parts = substr.split("//").next().unwrap().splitn(2, char::is_whitespace);
                     parts.next().unwrap();
                     let maybe_expr = parts.next().map(|s| s.trim()).and_then(|s| {
                         if s.is_empty() {
@@ -639,7 +639,7 @@ pub fn process<I: BufRead, O: Write>(
                 let new_line = context.replace_all(&uncommented_buf);
                 let substr = new_line.trim();
                 if substr.starts_with('#') {
-                    let mut parts = substr.split("//").next().unwrap().splitn(2, ' ');
+                    let mut parts = substr.split("//").next().unwrap().splitn(2, char::is_whitespace);
                     let name = parts.next().unwrap();
                     let maybe_expr = parts.next().map(|s| s.trim()).and_then(|s| {
                         if s.is_empty() {
